@@ -26,7 +26,7 @@ out_open = ["| property | key | what fails (concrete input) |", "|---|---|---|"]
 for f in kf["findings"]:
     out_open.append("| %s | `%s` | %s |" % (f["property"], f["key"], esc(f["what"])[:700]))
 # ---- evidence
-out_ev = ["| id | theorems (discharged/total) | correspondence lines | oracle evaluations passed | known findings reproduced | quick wall s |", "|---|---|---|---|---|---|"]
+out_ev = ["| id | theorems (discharged/total) | correspondence lines | oracle evaluations passed | known findings reproduced | wall s (tier of the last run) |", "|---|---|---|---|---|---|"]
 for p in sorted(glob.glob(os.path.join(ROOT, "evidence", "C*.json"))):
     e = json.load(open(p)); c = e["coverage"]
     out_ev.append("| %s | %s/%s | %s | %s | %s | %s (%s) |" % (e["property_id"], c.get("discharged"), c.get("obligations"), c.get("evaluations"),
@@ -53,7 +53,36 @@ for i in range(1, 21):
     fp = os.path.join(ROOT, "design_parts", pid + ".md")
     body = open(fp).read().strip() if os.path.exists(fp) else "(no as-built part written)"
     out_ab.append("#### %s\n\n%s\n" % (pid, body))
-blocks = {"asbuilt": out_ab, "fixes": out_fix, "open": out_open, "evidence": out_ev, "seeded": out_seed}
+# ---- seed statistics per round
+missed = json.load(open(os.path.join(ROOT, "seeded", "initially_missed.json")))
+stats = {}
+for pth in sorted(glob.glob(os.path.join(ROOT, "seeded", "*", "meta.json"))):
+    m = json.load(open(pth)); name = os.path.basename(os.path.dirname(pth))
+    rnd = name.split("_")[1][0]
+    st = stats.setdefault(rnd, {"n": 0, "input": 0, "nfi": 0, "missed": 0, "obsolete": 0, "first_missed": 0, "first_nfi": 0})
+    st["n"] += 1
+    r = m.get("check_result", "")
+    if m.get("obsolete"):
+        st["obsolete"] += 1
+    elif "VIOLATION" in r and "no-failing-input-found" in r:
+        st["nfi"] += 1
+    elif "VIOLATION" in r:
+        st["input"] += 1
+    else:
+        st["missed"] += 1
+    if name in missed:
+        if missed[name].startswith("was caught only") or "only as a correspondence break" in missed[name][:80]:
+            st["first_nfi"] += 1
+        else:
+            st["first_missed"] += 1
+out_ss = ["| round | seeds kept | caught with a failing input | caught, no failing input found | missed | obsolete after a later fix | missed at first, then strengthened | caught only as a correspondence break at first |", "|---|---|---|---|---|---|---|---|"]
+tot = {k: 0 for k in ("n", "input", "nfi", "missed", "obsolete", "first_missed", "first_nfi")}
+for rnd in sorted(stats):
+    st = stats[rnd]
+    for k in tot: tot[k] += st[k]
+    out_ss.append("| %s | %d | %d | %d | %d | %d | %d | %d |" % (rnd, st["n"], st["input"], st["nfi"], st["missed"], st["obsolete"], st["first_missed"], st["first_nfi"]))
+out_ss.append("| all | %d | %d | %d | %d | %d | %d | %d |" % (tot["n"], tot["input"], tot["nfi"], tot["missed"], tot["obsolete"], tot["first_missed"], tot["first_nfi"]))
+blocks = {"seedstats": out_ss, "asbuilt": out_ab, "fixes": out_fix, "open": out_open, "evidence": out_ev, "seeded": out_seed}
 p = os.path.join(ROOT, "DESIGN.md")
 s = open(p).read()
 for k, lines in blocks.items():
